@@ -87,6 +87,18 @@ CHECKS = {
         "text": "Handlers of every kind (user foreground, user background, built-in via a bare PING) panic or block for ever at random; TLC checks on the recorded events that every panic reached the recovery function, that every foreground handler still ran exactly once for every later line, and the design model proves delivery of all lines (liveness) with blocked background handlers. A dying client process is a violation.",
         "note": MC_NOTE + " The recorded executions sample real schedules (GOMAXPROCS 1..16, lingering handlers, a delayed internal phase); they are not enumerated.",
     },
+    "C13": {
+        "engine": "Network.tla", "level": "model_checking", "design_ref": "7 (C13)",
+        "technique": "TLA+ model IRC network (ground truth + what the protocol has revealed) generating conformant server events; TLC closure over a small universe and -simulate over a larger one; every edge replayed on a real client (lines sent, answers expected, full tracker projection / own nick compared); arbitrary-line soups validated by TLC",
+        "text": "Network.tla keeps the truth (members with true privileges, topics, key, limit, user@host) and, next to it, what NAMES / MODE / 324 / 332 / TOPIC / WHO / JOIN prefixes have revealed; its View is what a conforming tracker must hold. Every event edge (own join/part/kick, other users joining, parting, being kicked, quitting, renaming, privilege, key and limit changes incl. two argument-taking modes in one line, topic changes, 324 and WHO replies) of the explored graph is replayed on a real tracked client and the complete tracker projection is compared. The second sentence of the property is checked by TLC (RobustTrace.tla) on the tracker projection after each of 250 arbitrary lines in sequences and random soups.",
+        "note": MC_NOTE + " The handlers are not modelled: the real client plays their part in every replayed edge, the model network is the oracle.",
+    },
+    "C17": {
+        "engine": "Network.tla", "level": "model_checking", "design_ref": "7 (C17)",
+        "technique": "TLA+ model IRC network (ground truth + what the protocol has revealed) generating conformant server events; TLC closure over a small universe and -simulate over a larger one; every edge replayed on a real client (lines sent, answers expected, full tracker projection / own nick compared); arbitrary-line soups validated by TLC",
+        "text": "The same model network drives the nick life-cycle: 433 collisions before the welcome (answered by NICK NewNick(refused), NewNick transcribed in TLA+), 001 with the same, another or a case-variant nick, client-requested changes confirmed or refused, server-forced changes, other users renaming to and from look-alike nicks. After every replayed edge Me().Nick must equal the server's nick for the client and Me()/Config().Me must be non-nil, with and without state tracking; the default generator is swept over all 256 last bytes and validated by TLC.",
+        "note": MC_NOTE + " The handlers are not modelled: the real client plays their part in every replayed edge, the model network is the oracle.",
+    },
     "C12": {
         "engine": "Tracker.tla", "level": "model_checking", "design_ref": "7 (C12), 4.4",
         "technique": "TLA+ relational model; TLC closure of reachable states; every state-graph edge replayed on the real tracker + TLC trace validation of recorded random histories",
